@@ -18,6 +18,7 @@ import itertools
 import pickle
 import zoneinfo
 
+from .. import worker
 from .. import core, obs, seeds
 from ..ref import calref, tzref
 
@@ -133,8 +134,9 @@ def build(pendulum, case):
 
 
 def run_case(acc, pendulum, case, depth2=False):
-    label, x, eq = build(pendulum, case)
-    check_value(acc, pendulum, label, x, case, eq=eq, depth2=depth2)
+    with worker.guarded(acc, "copy", case):
+        label, x, eq = build(pendulum, case)
+        check_value(acc, pendulum, label, x, case, eq=eq, depth2=depth2)
 
 
 DUR_KEYS = ("years", "months", "weeks", "days", "hours", "minutes", "seconds", "milliseconds", "microseconds")
